@@ -143,14 +143,14 @@ def gen_c09(tier, rng):
 
 ALLOPS = ["a", "a", "a", "i", "d", "s", "s", "r", "q", "w"]
 
-def script(rng, n, used, kind):
+def script(rng, n, used, kind, big=False):
     th = []
     for _ in range(n):
         o = rng.choice(ALLOPS)
         if o == "a":
-            th.append(upd(rng, used, kind))
+            th.append(upd(rng, used, kind, big))
         elif o == "w":
-            th.append("w%d" % rng.choice([0, 5, -9, 1 << 33, 123456789]))
+            th.append("w%d" % rng.choice([0, 5, -9, 1 << 33, 123456789] + ([(1 << 63) - 1, -(1 << 63), (1 << 63) - 2] if big else [])))
         else:
             th.append(o)
     return th
@@ -198,7 +198,7 @@ def gen_c16(tier, rng):
     # single-threaded scripts over the whole API
     for i in range(scale(tier, 150, 2500)):
         kind = rng.choice(kinds)
-        s.append(conc.Scn("a%d" % i, kind, rnd_words(rng, 30), [script(rng, rng.choice([3, 6, 10]) if kind != "rc" else rng.choice([2, 4]), [], kind)], "dfs 0 1",
+        s.append(conc.Scn("a%d" % i, kind, rnd_words(rng, 30), [script(rng, rng.choice([3, 6, 10]) if kind != "rc" else rng.choice([2, 4]), [], kind, big=(i % 4 == 3 and kind not in ("jdkf", "atomicf")))], "dfs 0 1",
                           {"maxcells": rng.choice([1, 2, 4])} if kind in ("jdkadd", "jdkf") else {}))
     # phases: concurrent updates / exclusive Store-Reset-SumAndReset / concurrent updates / exclusive reads
     for i in range(scale(tier, 30, 400)):
@@ -253,9 +253,10 @@ def gen_c19_adder(tier, rng):
     s = []
     for i in range(scale(tier, 24, 200)):
         nt = rng.choice([2, 3])
-        ths = [script(rng, rng.choice([1, 2, 3]), [], "mutexadd") for _ in range(nt)]
+        # every other scenario works at the ends of int64: sums there wrap (two's complement), totals stay exact
+        ths = [script(rng, rng.choice([1, 2, 3]), [], "mutexadd", big=(i % 2 == 1)) for _ in range(nt)]
         s.append(conc.Scn("x%d" % i, "mutexadd", [], ths, "dfs 2 %d" % scale(tier, 3000, 40000)))
     for i in range(scale(tier, 10, 100)):
-        ths = [script(rng, rng.choice([2, 3, 4]), [], "mutexadd") for _ in range(rng.choice([3, 4]))]
+        ths = [script(rng, rng.choice([2, 3, 4]), [], "mutexadd", big=(i % 2 == 1)) for _ in range(rng.choice([3, 4]))]
         s.append(conc.Scn("y%d" % i, "mutexadd", [], ths, "rand %d %d" % (scale(tier, 300, 3000), rng.randint(1, 1 << 30))))
     return s
